@@ -15,6 +15,7 @@ let handle (toks : string list) : string =
            let tbl = Hashtbl.create 64 in
            let tr = parse_strace tbl obs in
            let cls = List.sort_uniq compare (List.map string_of_nclause (chk_C10 c (zs base) tr)) in
+           let cls = cls @ (if quiet_violated_s c.nooo (zs base) tr then ["watermark_not_redelivered"] else []) in
            (* narrow the start_not_earliest clause: is the reported start the timestamp of the first-arrived row? *)
            let start_kind =
              if not (List.mem "start_not_earliest" cls) then "" else
